@@ -31,7 +31,9 @@ package weights
 //@   ensures [C20] @skipped: !(d in days) ==> tlen() == old(tlen())
 //@   loop 1 invariant tlen() == old(tlen()) && fresh($range)
 //@   loop 1 invariant forall k int :: {$range[k]} 0 <= k && k < len($range) ==> ($range[k] in d.Performance.V1)
+//@   loop 1 invariant [C06] @ordered: forall a int, b int :: {$range[a], $range[b]} 0 <= a && a < b && b < len($range) ==> $range[a].name <= $range[b].name
 //@   loop 2 invariant tlen() >= old(tlen()) && fresh($range)
+//@   loop 2 invariant [C06] @ordered: forall a int, b int :: {$range[a], $range[b]} 0 <= a && a < b && b < len($range) ==> $range[a].name <= $range[b].name
 //@   loop 2 invariant forall k int :: {$range[k]} 0 <= k && k < len($range) ==> ($range[k] in d.Performance.V1)
 //@   loop 2 invariant [C20] @share: forall i int :: {targ("Add", 2, i)} entry(tlen()) <= i && i < tlen() ==> (exists k int :: 0 <= k && k < $i && targ("Add", 2, i) == d.Performance.V1[$range[k]] / total) && targ("Add", 1, i) == d.Date
 //
